@@ -511,7 +511,7 @@ pub async fn handle(ctx: HandlerCtx, conn: u32, mut req: http::Request<hyperdriv
         log.seen.len() - 1
     };
     let mut problem = None;
-    if path_id != hdr_id {
+    if path_id != hdr_id && !(path_id.is_none() && req.uri().path() == "/") {
         problem = Some(format!("id in path {:?} differs from id in header {:?}", path_id, hdr_id));
     }
     // read and verify the body
